@@ -463,6 +463,59 @@ def transition_lookup_rules(ctx):
 
 
 
+def mode_forward_rules(ctx):
+    """C06.g: set_mode / current_mode / mode_name of the public wrappers hand the call to the implementation and do nothing else."""
+    F = ctx.facts
+    if getattr(ctx, "_mode_forward_done", False):
+        return
+    ctx._mode_forward_done = True
+    # ---- C06.g set_mode / current_mode / mode_name forwarding chains -----------------------------
+    chains = [
+        (r"<find_matches::FindMatches<'_> as scanner::ScannerModeSwitcher>::set_mode$", r"FindMatchesImpl::<..>::set_mode$", "self.inner", "mode"),
+        (r"FindMatchesImpl::<..>::set_mode$", r"ScannerImpl as scanner::ScannerModeSwitcher>::set_mode$", "self.scanner_impl", "mode"),
+        (r"<scanner::Scanner as scanner::ScannerModeSwitcher>::set_mode$", r"ScannerImpl as scanner::ScannerModeSwitcher>::set_mode$", "self.inner", "mode"),
+        (r"<find_matches::FindMatches<'_> as scanner::ScannerModeSwitcher>::current_mode$", r"FindMatchesImpl::<..>::current_mode$", "self.inner", None),
+        (r"FindMatchesImpl::<..>::current_mode$", r"ScannerImpl as scanner::ScannerModeSwitcher>::current_mode$", "self.scanner_impl", None),
+        (r"<scanner::Scanner as scanner::ScannerModeSwitcher>::current_mode$", r"ScannerImpl as scanner::ScannerModeSwitcher>::current_mode$", "self.inner", None),
+        (r"<find_matches::FindMatches<'_> as scanner::ScannerModeSwitcher>::mode_name$", r"FindMatchesImpl::<..>::mode_name$", "self.inner", "index"),
+        (r"FindMatchesImpl::<..>::mode_name$", r"ScannerImpl as scanner::ScannerModeSwitcher>::mode_name$", "self.scanner_impl", "index"),
+        (r"<scanner::Scanner as scanner::ScannerModeSwitcher>::mode_name$", r"ScannerImpl as scanner::ScannerModeSwitcher>::mode_name$", "self.inner", "index"),
+        # the with_positions() adaptor hands mode operations to the iterator it wraps
+        (r"<with_positions::WithPositions<I> as scanner::ScannerModeSwitcher>::set_mode$", r"^<I as scanner::ScannerModeSwitcher>::set_mode$", "self.iter", "mode"),
+        (r"<with_positions::WithPositions<I> as scanner::ScannerModeSwitcher>::current_mode$", r"^<I as scanner::ScannerModeSwitcher>::current_mode$", "self.iter", None),
+        (r"<with_positions::WithPositions<I> as scanner::ScannerModeSwitcher>::mode_name$", r"^<I as scanner::ScannerModeSwitcher>::mode_name$", "self.iter", "index"),
+    ]
+    crate_names = {f_.name for f_ in F.fns.values()}
+    for src, dst, recv, arg in chains:
+        fn = F.fn(src)
+        ctx.analysed_fn(fn)
+        ex, paths = run_fn(fn, F, Model())
+        rp = ret_paths(paths)
+        okall = bool(rp)
+        detail = ""
+        for p in rp:
+            c = p.calls(dst)
+            ok = len(c) == 1 and S.vstr(c[0][3][0]).lstrip("&") == recv and (arg is None or (len(c[0][3]) > 1 and S.vstr(c[0][3][1]) == arg))
+            if ok and arg != "mode":
+                ok = p.end[1] == c[0][4]
+            if ok:
+                # a forwarding wrapper does nothing else: no field is written on the side and no other method of the wrapped
+                # object or of the crate is called (a set_mode that also repositions the cursor, or posts the request somewhere
+                # for another iterator to pick up, makes the public iterator differ from the implementation the rules analyse)
+                extra_w = [field_path(w[1]) for w in heap_writes(p)]
+                extra_c = [M.short_name(e_[2]) for e_ in p.events if e_[0] == "call" and e_ is not c[0]
+                           and (e_[2] in crate_names or re.search(r"^<I as |LocalKey|thread::|sync::|cell::", e_[2]))]
+                if extra_w or extra_c:
+                    ok = False
+                    okall = False
+                    detail = "besides forwarding: calls %s, writes %s" % (extra_c[:4], extra_w[:3])
+                    continue
+            if not ok:
+                okall = False
+                detail = "calls %s" % [(M.short_name(x[2]), [S.vstr(a) for a in x[3]]) for x in p.calls(".")][:4]
+        ctx.ob("C06.g", "forward:" + M.short_name(fn.name), okall, detail or "forwards %s to %s" % (arg or "the query", recv), fn.loc())
+
+
 def mode_switch_rules(ctx):
     """C06.c (second half): next() enters the mode the shared lookup answers — the lookup peek_n consults as well."""
     F = ctx.facts
@@ -648,38 +701,7 @@ def check(ctx):
             ok = variant_of(ex, p, ret) == "None" or ret == res
         ctx.ob("C06.f", "peek_from-returns-the-attempt", ok, "attempt %s -> returns %s" % (v, S.vstr(ret)), pf.loc())
 
-    # ---- C06.g set_mode / current_mode / mode_name forwarding chains -----------------------------
-    chains = [
-        (r"<find_matches::FindMatches<'_> as scanner::ScannerModeSwitcher>::set_mode$", r"FindMatchesImpl::<..>::set_mode$", "self.inner", "mode"),
-        (r"FindMatchesImpl::<..>::set_mode$", r"ScannerImpl as scanner::ScannerModeSwitcher>::set_mode$", "self.scanner_impl", "mode"),
-        (r"<scanner::Scanner as scanner::ScannerModeSwitcher>::set_mode$", r"ScannerImpl as scanner::ScannerModeSwitcher>::set_mode$", "self.inner", "mode"),
-        (r"<find_matches::FindMatches<'_> as scanner::ScannerModeSwitcher>::current_mode$", r"FindMatchesImpl::<..>::current_mode$", "self.inner", None),
-        (r"FindMatchesImpl::<..>::current_mode$", r"ScannerImpl as scanner::ScannerModeSwitcher>::current_mode$", "self.scanner_impl", None),
-        (r"<scanner::Scanner as scanner::ScannerModeSwitcher>::current_mode$", r"ScannerImpl as scanner::ScannerModeSwitcher>::current_mode$", "self.inner", None),
-        (r"<find_matches::FindMatches<'_> as scanner::ScannerModeSwitcher>::mode_name$", r"FindMatchesImpl::<..>::mode_name$", "self.inner", "index"),
-        (r"FindMatchesImpl::<..>::mode_name$", r"ScannerImpl as scanner::ScannerModeSwitcher>::mode_name$", "self.scanner_impl", "index"),
-        (r"<scanner::Scanner as scanner::ScannerModeSwitcher>::mode_name$", r"ScannerImpl as scanner::ScannerModeSwitcher>::mode_name$", "self.inner", "index"),
-        # the with_positions() adaptor hands mode operations to the iterator it wraps
-        (r"<with_positions::WithPositions<I> as scanner::ScannerModeSwitcher>::set_mode$", r"^<I as scanner::ScannerModeSwitcher>::set_mode$", "self.iter", "mode"),
-        (r"<with_positions::WithPositions<I> as scanner::ScannerModeSwitcher>::current_mode$", r"^<I as scanner::ScannerModeSwitcher>::current_mode$", "self.iter", None),
-        (r"<with_positions::WithPositions<I> as scanner::ScannerModeSwitcher>::mode_name$", r"^<I as scanner::ScannerModeSwitcher>::mode_name$", "self.iter", "index"),
-    ]
-    for src, dst, recv, arg in chains:
-        fn = F.fn(src)
-        ctx.analysed_fn(fn)
-        ex, paths = run_fn(fn, F, Model())
-        rp = ret_paths(paths)
-        okall = bool(rp)
-        detail = ""
-        for p in rp:
-            c = p.calls(dst)
-            ok = len(c) == 1 and S.vstr(c[0][3][0]).lstrip("&") == recv and (arg is None or (len(c[0][3]) > 1 and S.vstr(c[0][3][1]) == arg))
-            if ok and arg != "mode":
-                ok = p.end[1] == c[0][4]
-            if not ok:
-                okall = False
-                detail = "calls %s" % [(M.short_name(x[2]), [S.vstr(a) for a in x[3]]) for x in p.calls(".")][:4]
-        ctx.ob("C06.g", "forward:" + M.short_name(fn.name), okall, detail or "forwards %s to %s" % (arg or "the query", recv), fn.loc())
+    mode_forward_rules(ctx)
     sm = F.fn(r"ScannerImpl as scanner::ScannerModeSwitcher>::set_mode$")
     ex, paths = run_fn(sm, F, Model())
     for p in ret_paths(paths):
